@@ -166,7 +166,28 @@ def run_impl(case):
                 ap = I.Ap(I.TPMetricsAph(), [[r]], 1, [I.AutowareLabel.CAR], I.MatchingMode.CENTERDISTANCE, [1000.0])
                 d["tp"] = [float(x) for x in ap.tp_list]
             out.append(d)
-        return {"r": out}
+        res = {"r": out}
+        # objects DERIVED from already-scored ones the way the library derives them (deepcopy, then the state /
+        # orientation is replaced: interpolation, frame conversion) must be weighted by their CURRENT heading
+        try:
+            from copy import deepcopy
+
+            from perception_eval.common.object import ObjectState
+
+            e0, g0 = obj(0, 0, 0), obj(1, 0, 0)
+            I.TPMetricsAph().get_value(I.DynamicObjectWithPerceptionResult(e0, g0))  # make sure both were scored
+            d1 = deepcopy(e0)
+            d1.state = ObjectState(e0.state.position, g0.state.orientation, e0.state.shape, e0.state.velocity)
+            d2 = deepcopy(e0)
+            d2.state.orientation = g0.state.orientation
+            dr = []
+            for dd in (d1, d2):
+                r = I.DynamicObjectWithPerceptionResult(dd, g0)
+                dr.append({"w": float(I.TPMetricsAph().get_value(r)), "err": float(r.heading_error[2])})
+            res["derived"] = dr
+        except Exception as e:  # noqa
+            res["derived"] = [{"exc": type(e).__name__}]
+        return res
     except Exception as e:  # noqa
         return {"err": type(e).__name__, "msg": str(e)[:200]}
 
@@ -222,6 +243,12 @@ def _names(r):
 
 
 def oracle(case, out):
+    for k_, dv in enumerate(out.get("derived", []) if isinstance(out, dict) else []):
+        if "exc" in dv:
+            return f"scoring a derived object raised {dv['exc']}"
+        if abs(dv["w"] - 1.0) > 1e-9 or abs(dv["err"]) > 1e-9:
+            return (f"an object derived from a scored one by deepcopy + new orientation (now equal to the ground truth's) "
+                    f"gets heading weight {dv['w']!r} and yaw error {dv['err']!r}; a fresh object gets 1.0 and 0.0")
     if "r" not in out:
         return f"the implementation raised {out.get('err')}: {out.get('msg')}"
     if case["kind"] == "nogt":
